@@ -14,9 +14,23 @@ from concurrent.futures import ThreadPoolExecutor
 from pathlib import Path
 
 from .. import tlc, trace
-from ..core import Machinery
+from ..core import Machinery, child_env
 
 LEVEL = "model_checking"
+META = {
+    "technique": "TLA+ spec CacheFS (inode-level file system, 2 processes, crashes) model-checked exhaustively with TLC; "
+    "TLC -simulate behaviours and enumerated crash points forced on the real perform_cached_doit by a "
+    "fork/interposition scheduler; recorded operation traces validated by Trace_CacheFS with TLC",
+    "text": "Exhaustive model checking of the caching algorithm's design for every interleaving/crash point within "
+    "small bounds, bound to the code in both directions: specification behaviours are replayed as schedules "
+    "on the real function, and every recorded file-operation trace must be a behaviour of the specification "
+    "with ReturnsDoit/NeverRaises evaluated on the logged results. Histories x crash points x schedules is "
+    "exactly the quantifier tests cannot sample.",
+    "note": "Trusted: TLC, the inode model of POSIX open/replace, the interposition layer (open/os.open/stat/replace/unlink "
+    "on the cache directory), SIGKILL between operations or after n bytes as the crash model; bounds: 2-3 processes, "
+    "3 expressions (2 colliding), <=5 calls, <=2 crashes per behaviour.",
+    "design_ref": "DESIGN.md §4 C16",
+}
 HARNESS = Path(__file__).resolve().parents[2]
 
 MC_CFG = """SPECIFICATION Spec
@@ -103,12 +117,7 @@ def enumerated_schedules(tier, rng, sizes):
 
 
 def run_executor(binding, hashseed, scenarios):
-    env = dict(os.environ)
-    env.pop("PYTHONHASHSEED", None)
-    if hashseed is not None:
-        env["PYTHONHASHSEED"] = str(hashseed)
-    env["PYTHONPATH"] = str(HARNESS)
-    env["PYTHONDONTWRITEBYTECODE"] = "1"
+    env = child_env(hashseed)
     job = json.dumps({"binding": binding, "nchunks": 2, "scenarios": scenarios})
     p = subprocess.run([sys.executable, "-m", "vf.cachefs_exec"], input=job, capture_output=True, text=True, env=env, timeout=3600)
     if p.returncode != 0:
